@@ -2,6 +2,7 @@
 import asyncio
 import inspect
 import json
+import typing
 
 import beartype
 import typeguard
@@ -438,6 +439,76 @@ def call_shape_cases(out, ck):
                 out.violation(f"odd-name:{type(e).__name__}", f"decorating / calling a callable whose __name__ is {nm!r} raised {e!r}", {"call_shape": "name:" + nm, "checker": ck})
 
 
+def factory_and_strict_cases(out, ck):
+    """(1) one `def` decorated several times (a function factory, a definition in a loop) with the same parameter
+    annotations and different return annotations: every instance checks against ITS annotations; (2) a typechecker that
+    enforces a constraint ACROSS parameters: when it rejects a call the body does not run, even though no single
+    argument is wrong on its own"""
+    import functools
+    import inspect
+
+    tc = CHECKERS[ck]
+    runs = []
+
+    def make(ret_ann, value):
+        def convert(x: int) -> ret_ann:
+            runs.append(ret_ann)
+            return value
+        return jaxtyped(typechecker=tc)(convert)
+
+    insts = [(str, "s"), (float, 1.5), (complex, 1j), (int, 7), (str, "t")]
+    fns = [make(a, v) for a, v in insts]
+    for (ann, val), fn in zip(insts, fns):
+        runs.clear()
+        try:
+            r = fn(3)
+            ok = r is val and runs == [ann]
+            got = ("ret", ok)
+        except BaseException as e:  # noqa: BLE001
+            got = ("raise", type(e).__name__)
+        out.case(("factory", ck, ann.__name__), True, sample={"return_annotation": ann.__name__, "outcome": got})
+        if got != ("ret", True):
+            out.violation(f"factory:{ck}", f"the instance of a factory-made function annotated `-> {ann.__name__}` gives {got} on a well-typed call "
+                          f"(earlier instances of the same def had other return annotations)", {"factory": ann.__name__, "checker": ck})
+    if ck != "typeguard":
+        return
+    # a typechecker with a cross-parameter rule layered on typeguard: all parameters annotated `int | str` must get the same type
+    def strict(fn):
+        inner = typeguard.typechecked(fn)
+        names = list(inspect.signature(fn).parameters)
+
+        @functools.wraps(fn)
+        def wrapper(*args, **kwargs):
+            sig = inspect.signature(fn)
+            bound = sig.bind(*args, **kwargs)
+            # the rule only concerns parameters that ARE annotated `int | str` in the function it is applied to
+            vals = [v for n_, v in bound.arguments.items() if sig.parameters[n_].annotation == typing.Union[int, str]]
+            if len({type(v) for v in vals}) > 1:
+                raise TypeError("p and q must have the same type")
+            return inner(*args, **kwargs)
+        return wrapper
+
+    body = []
+
+    @jaxtyped(typechecker=strict)
+    def pair(p: typing.Union[int, str], q: typing.Union[int, str]):
+        body.append((p, q))
+        return "ran"
+
+    for args, want in (((1, 2), "ran"), (("a", "b"), "ran"), ((1, "a"), "tce"), (("a", 1), "tce")):
+        body.clear()
+        try:
+            got = pair(*args)
+        except jaxtyping.TypeCheckError:
+            got = "tce"
+        except BaseException as e:  # noqa: BLE001
+            got = "raise:" + type(e).__name__
+        out.case(("strict-checker", args), True, sample={"args": repr(args), "outcome": got, "body_ran": len(body)})
+        if got != want or (want == "tce" and body):
+            out.violation("strict-checker", f"with a typechecker that rejects pair{args!r} (a rule across parameters) the decorated call gives {got!r} and the body ran "
+                          f"{len(body)} time(s); must be {want!r}" + (" with the body not run" if want == "tce" else ""), {"strict": repr(args)})
+
+
 def descriptor_cases(out, ck):
     tc = CHECKERS[ck]
     deco = jaxtyped(typechecker=tc)
@@ -510,6 +581,7 @@ def run(tier, seed, out, drv, facts):
     for ck in CHECKERS:
         descriptor_cases(out, ck)
         call_shape_cases(out, ck)
+        factory_and_strict_cases(out, ck)
     for i in range(n):
         sig = gen_sig(rng)
         fname = rng.choice(["fn", "fn", "T0", "ret0", "default0", sig[0]["name"]])
@@ -527,3 +599,4 @@ def replay(rep, out, drv, facts):
         for ck in CHECKERS:
             descriptor_cases(out, ck)
             call_shape_cases(out, ck)
+            factory_and_strict_cases(out, ck)
